@@ -5,7 +5,7 @@
    states in which the requirement-level invariants fail without stopping. *)
 EXTENDS PTLazy, Json, SequencesExt
 EncSt(s) == [cls |-> {<<cp[1], cp[2], s.cls[cp]>> : cp \in {x \in DOMAIN s.cls : s.cls[x] # "abs"}},
-             inst |-> s.inst, asg |-> s.asg, tp |-> [T \in Tables |-> s.tp[T]], tabs |-> s.tabs, mut |-> s.mut]
+             inst |-> s.inst, asg |-> s.asg, tp |-> [T \in Tables |-> s.tp[T]], tabs |-> s.tabs, mut |-> s.mut, det |-> s.det]
 Moves(s) == {ev \in Events(s) : Apply(s, ev) # s}
 Emit == PrintT("@@" \o ToJson([s |-> EncSt(st),
                                moves |-> {[e |-> ev, t |-> EncSt(Apply(st, ev))] : ev \in Moves(st)},
